@@ -60,6 +60,8 @@ def run(ck, ctx):
             return None
         if v.op == "BoundMethod" and v.args[1].op in ("Func", "Closure"):
             return I.run(v.args[1], [v.args[0]], st=st2)
+        if is_ext_call(v, "functools.partial"):
+            return I.run(v, [], st=st2)          # name = partialmethod(helper, ...)
         return None
 
     # ---------------------------------------------------------------- R02.1 ranges
@@ -184,6 +186,8 @@ def run(ck, ctx):
                 return None
             if v.op == "BoundMethod" and v.args[1].op in ("Func", "Closure"):
                 return J.run(v.args[1], [v.args[0]], st=st_)
+            if is_ext_call(v, "functools.partial"):
+                return J.run(v, [], st=st_)
             return None
         accs = [a for a in ACCESSORS if read(a, D2.st) is not None]
         s1 = J.input("distance along the trajectory (first)", kind="array")
